@@ -332,6 +332,15 @@ def apply_event(W, ev):
         for label in srv.labels:
             cell.partitions[label].remove(srv)
         W.gone = getattr(W, 'gone', set()) | {j}
+    elif kind == 'remove_app_then_server':
+        # the server once hosted an instance (its counters keep the key with
+        # count 0), the instance is deleted, then the server leaves
+        j = ev[1]
+        srv = W.servers[j]
+        for name in list(srv.apps):
+            cell.remove_app(name)
+            W.removed = getattr(W, 'removed', set()) | {int(name[-10:])}
+        apply_event(W, ('remove_server', j))
     elif kind == 'replace_server':     # Loader.reload_server with new data
         j = ev[1]
         srv = W.servers[j]
